@@ -99,7 +99,7 @@ const ANCHOR_W: [u32; 9] = [30, 14, 12, 10, 10, 8, 5, 5, 6];
 fn near(t: &mut Tape, anchors: &[u64]) -> u64 {
     let a = anchors[t.below(anchors.len())];
     let d = t.below(49) as u64;
-    if d % 2 == 0 {
+    if d.is_multiple_of(2) {
         a.saturating_add(d / 2)
     } else {
         a.saturating_sub(d.div_ceil(2))
